@@ -98,7 +98,10 @@ def run_sens(ctx, n):
         if r['error']:
             ctx.fail('sens-harness-error', r['error'], c)
         for b in r['bad'][:1]:
-            ctx.fail('sensitivity-exceeds-bound', b, c)
+            # a packed batch that is not length-sorted: the recurrent layer's per-sample gradients come in length-sorted row order (finding of C01),
+            # so one example is clipped in two different rows
+            known = c['model'] == 'rnnpack' and r.get('lens_sorted') is False
+            ctx.fail('rnn-packed-unsorted-sensitivity' if known else 'sensitivity-exceeds-bound', b, c)
 
 
 def run(ctx, gen_status):
@@ -112,7 +115,9 @@ def run(ctx, gen_status):
 
 
 def search(ctx):
-    if ctx.failures:
+    if ctx.failures and not all(f['key'] == 'rnn-packed-unsorted-sensitivity' for f in ctx.failures):
+        return
+    if ctx.failures and not ctx.broken:
         return
     run_sens(ctx, 600)
 
@@ -123,5 +128,6 @@ def replay_case(ctx, failure):
     if 'drop' in c:
         r = vlib.run_impl('clip_numeric.py', {'sens': [c], 'step': []})['sens'][0]
         for b in r['bad'][:1]:
-            ctx.fail('sensitivity-exceeds-bound', b, c)
+            known = c['model'] == 'rnnpack' and r.get('lens_sorted') is False
+            ctx.fail('rnn-packed-unsorted-sensitivity' if known else 'sensitivity-exceeds-bound', b, c)
     return len(ctx.failures) == n0, ctx.failures[n0:] or 'holds'
